@@ -76,9 +76,28 @@ func init() {
 			}
 			GenCore(r, k, sc)
 			sc.OrderedShutdown = r.P(300)
+			if r.P(150) {
+				addSlowDaemon(r, sc, "dm")
+			}
+			if sc.Arm == "api" && r.P(150) {
+				// the shutdown meets a scale request that is renaming the running replicas
+				n0 := Pick(r, 1, 1, 9)
+				sc.Project.Procs = append(sc.Project.Procs, &ProcSpec{Name: "w", Token: "w.{{.PC_REPLICA_NUM}}", Replicas: n0})
+				life := simos.Script{LifeMs: -1, TermLagMs: Pick(r, 0, 100)}
+				sc.Scripts["w.*"] = &TokenScript{Launches: []simos.Script{life, life}}
+				at := Pick(r, 1000, 2000, 3000)
+				sc.Clients = append(sc.Clients, Client{Name: "scl", Ops: []Op{{AtMs: at, Op: "scale", Arg: ReplicaNames("w", n0)[0], N: n0 + 1}}},
+					Client{Name: "sd1", Ops: []Op{{AtMs: at, Op: "shutdown"}}})
+				sc.Strategy.StallPermille = 0
+				sc.Arm = "scalerace"
+				return sc
+			}
 			switch sc.Arm {
 			case "api":
 				at := whenMs(r, 12000)
+				if sc.Project.Proc("dm") != nil && r.P(500) {
+					at = Pick(r, 100, 500, 1000, 1400, 2900) // while the daemon's launcher is still running
+				}
 				sc.Clients = append(sc.Clients, Client{Name: "sd1", Ops: []Op{{AtMs: at, Op: "shutdown"}}})
 				if r.P(300) {
 					sc.Clients = append(sc.Clients, Client{Name: "sd2", Ops: []Op{{AtMs: at + Pick(r, 0, 0, 1, 500, 1000), Op: "shutdown"}}})
@@ -143,6 +162,20 @@ func init() {
 					sc.Scripts[nm] = &TokenScript{Launches: []simos.Script{{LifeMs: 60000, TermLagMs: Pick(r, 0, 100, 1500), Ignore: []int{15}}}}
 				}
 				sc.Project.Procs = append(sc.Project.Procs, trig, dep, sk)
+			}
+			if sc.Arm == "natural" && r.P(200) {
+				// a daemon is still being launched when a trigger starts the project shutdown
+				sc.Arm = "daemontrigger"
+				addSlowDaemon(r, sc, "dm")
+				trig := &ProcSpec{Name: "tg", Token: "tg"}
+				code := Pick(r, 3, 7, 0)
+				if code == 0 {
+					trig.ExitOnEnd = true
+				} else {
+					trig.Restart = "exit_on_failure"
+				}
+				sc.Scripts["tg"] = &TokenScript{Launches: []simos.Script{{LifeMs: Pick(r, 100, 500, 1000, 2500), Exit: code}}}
+				sc.Project.Procs = append(sc.Project.Procs, trig)
 			}
 			for _, p := range sc.Project.Procs {
 				if p.ExitOnEnd || p.ExitOnSkipped || p.Restart == "exit_on_failure" {
@@ -251,6 +284,44 @@ func init() {
 			if r.P(200) {
 				addStopUnreadyPair(r, sc)
 				sc.Arm = "stopunready"
+				return sc
+			}
+			if r.P(100) {
+				// a process is restarted (or stopped and started) while it is still waiting for
+				// its own dependency; later a dependent of it is started by hand and has to wait
+				// for the new instance
+				cond := Pick(r, "process_completed", "process_completed_successfully")
+				sc.Project.Procs = append(sc.Project.Procs,
+					&ProcSpec{Name: "wx", Token: "wx"},
+					&ProcSpec{Name: "wa", Token: "wa", DependsOn: map[string]string{"wx": "process_completed_successfully"}},
+					&ProcSpec{Name: "wb", Token: "wb", Disabled: true, DependsOn: map[string]string{"wa": cond}})
+				sc.Scripts["wx"] = &TokenScript{Launches: []simos.Script{{LifeMs: Pick(r, 2500, 3500), Exit: 0}}}
+				sc.Scripts["wa"] = &TokenScript{Launches: []simos.Script{{LifeMs: Pick(r, 4000, 6000), Exit: 0}, {LifeMs: 4000, Exit: 0}}}
+				sc.Scripts["wb"] = &TokenScript{Launches: []simos.Script{{LifeMs: 500, Exit: 0}}}
+				ops := []Op{{AtMs: Pick(r, 500, 1000, 1500), Op: "restart", Arg: "wa"}}
+				if r.P(400) {
+					ops = []Op{{AtMs: 500, Op: "stop", Arg: "wa"}, {AtMs: Pick(r, 1000, 1500), Op: "start", Arg: "wa"}}
+				}
+				ops = append(ops, Op{AtMs: Pick(r, 4500, 5500), Op: "start", Arg: "wb"})
+				sc.Clients = append(sc.Clients, Client{Name: "rp", Ops: ops})
+				sc.Strategy.StallPermille = 0
+				sc.Arm = "repend"
+				return sc
+			}
+			if r.P(100) {
+				// several dependencies, one of them a process that is not scheduled to run
+				// (disabled): it is passed over, the others are still waited for
+				sc.Project.Procs = append(sc.Project.Procs,
+					&ProcSpec{Name: "dz", Token: "dz", Disabled: true},
+					&ProcSpec{Name: "ds", Token: "ds"},
+					&ProcSpec{Name: "dt", Token: "dt"},
+					&ProcSpec{Name: "dm", Token: "dm", DependsOn: map[string]string{"dz": Pick(r, "process_started", "process_completed"), "ds": "process_completed_successfully", "dt": "process_completed"}})
+				sc.Scripts["dz"] = &TokenScript{Launches: []simos.Script{{LifeMs: 100}}}
+				sc.Scripts["ds"] = &TokenScript{Launches: []simos.Script{{LifeMs: Pick(r, 1500, 3000), Exit: 0}}}
+				sc.Scripts["dt"] = &TokenScript{Launches: []simos.Script{{LifeMs: Pick(r, 1000, 2500, 4000), Exit: Pick(r, 0, 1)}}}
+				sc.Scripts["dm"] = &TokenScript{Launches: []simos.Script{{LifeMs: 500}}}
+				sc.IterMode = Pick(r, 1, 2, 3)
+				sc.Arm = "disableddep"
 				return sc
 			}
 			if r.P(400) {
@@ -446,7 +517,7 @@ func init() {
 			if r.P(300) && at > 200 {
 				var cands []*ProcSpec
 				for _, p := range sc.Project.Procs {
-					if len(p.DependsOn) > 0 && p.Replicas <= 1 && !p.Disabled {
+					if len(p.DependsOn) > 0 && p.Replicas <= 1 && !p.Disabled && !p.IsDaemon {
 						cands = append(cands, p)
 					}
 				}
@@ -460,6 +531,29 @@ func init() {
 					}
 					sc.Clients = append(sc.Clients, Client{Name: "prestop", Ops: []Op{{AtMs: at - Pick(r, 100, 200), Op: Pick(r, "stop", "restart"), Arg: p.Name}}})
 				}
+			}
+			late := func() {
+				if sc.Clients[0].Ops[0].AtMs < 3500 {
+					sc.Clients[0].Ops[0].AtMs = Pick(r, 3500, 5000)
+				}
+			}
+			if r.P(120) {
+				// a dependency that had completed (that was the condition) and has been started
+				// again by hand: it is running when the shutdown begins, like its dependent
+				cond := Pick(r, "process_completed", "process_completed_successfully")
+				sc.Project.Procs = append(sc.Project.Procs, &ProcSpec{Name: "mg", Token: "mg"}, &ProcSpec{Name: "ap", Token: "ap", DependsOn: map[string]string{"mg": cond}})
+				sc.Scripts["mg"] = &TokenScript{Launches: []simos.Script{{LifeMs: Pick(r, 100, 500), Exit: 0}, {LifeMs: -1, TermLagMs: Pick(r, 0, 100)}}}
+				sc.Scripts["ap"] = &TokenScript{Launches: []simos.Script{{LifeMs: -1, TermLagMs: Pick(r, 500, 1500, 3000)}}}
+				sc.Clients = append(sc.Clients, Client{Name: "again", Ops: []Op{{AtMs: Pick(r, 1500, 2500), Op: "start", Arg: "mg"}}})
+				late()
+			}
+			if r.P(120) {
+				// a process that only starts on request, started by hand, with a running dependency
+				sc.Project.Procs = append(sc.Project.Procs, &ProcSpec{Name: "bd", Token: "bd"}, &ProcSpec{Name: "tl", Token: "tl", Disabled: true, DependsOn: map[string]string{"bd": "process_started"}})
+				sc.Scripts["bd"] = &TokenScript{Launches: []simos.Script{{LifeMs: -1, TermLagMs: Pick(r, 0, 100)}}}
+				sc.Scripts["tl"] = &TokenScript{Launches: []simos.Script{{LifeMs: -1, TermLagMs: Pick(r, 500, 1500, 3000)}}}
+				sc.Clients = append(sc.Clients, Client{Name: "manual", Ops: []Op{{AtMs: Pick(r, 1000, 2500), Op: "start", Arg: "tl"}}})
+				late()
 			}
 			return sc
 		},
@@ -491,6 +585,14 @@ func init() {
 	register(&PropDef{ID: "C08", Rule: "1-3 processes (fast exit, slow reaction to the stop signal, restarting, pending on a dependency) and 2-4 concurrent client tasks each issuing 3-8 seeded start/stop/restart requests, including unknown names and duplicates at the same instant; instance-overlap oracle at every launch, outcome-vs-activity oracle per request; non-trivial = at least two requests overlapped or landed at the same fake instant; distinct = distinct trace hash",
 		Gen: func(seed uint64, idx int, tier string) *Scenario {
 			sc, r := baseScenario("C08", seed)
+			if r.P(70) {
+				genC08Rename(r, sc)
+				return sc
+			}
+			if r.P(70) {
+				genC08UpdatePending(r, sc)
+				return sc
+			}
 			k := lifecycleKnobs()
 			k.MinProcs, k.MaxProcs = 1, 3
 			k.RestartP = 500
@@ -697,6 +799,16 @@ func init() {
 			return false
 		},
 	})
+}
+
+// addSlowDaemon appends a daemon whose launcher takes a while (requests meet it while it is
+// Launching and after) and that is stopped through its shutdown command.
+func addSlowDaemon(r *R, sc *Scenario, name string) *ProcSpec {
+	d := &ProcSpec{Name: name, Token: name, IsDaemon: true, StopCmd: name}
+	sc.Scripts[name] = &TokenScript{Launches: []simos.Script{{LifeMs: Pick(r, 200, 1500, 3000), Exit: 0}, {LifeMs: Pick(r, 200, 1500), Exit: 0}}}
+	sc.Scripts["simstop:"+name] = &TokenScript{Launches: []simos.Script{{LifeMs: Pick(r, 10, 300), Exit: 0}}}
+	sc.Project.Procs = append(sc.Project.Procs, d)
+	return d
 }
 
 // addHeldShutdown: a shutdown that is held up by a slow process while the subject is in (or
